@@ -9,6 +9,7 @@ mod ops_edits;
 mod wire;
 mod ops_apply;
 mod ops_case;
+mod ops_compound;
 mod ops_variant;
 mod ops_serde;
 mod ops_undo;
@@ -22,6 +23,7 @@ const HANDLERS: &[fn(&[&str]) -> Option<String>] = &[
     ops_edits::dispatch,
     ops_apply::dispatch,
     ops_case::dispatch,
+    ops_compound::dispatch,
     ops_variant::dispatch,
     ops_serde::dispatch,
     ops_undo::dispatch,
